@@ -390,3 +390,63 @@ SPECS["C19"] = {
     "level_note": "reference naturals in the harness are validated at start-up against unsigned __int128",
     "assumptions": ["bit scans are only generated for non-zero values (documented precondition of Platform::FindFirstBit/FindLastBit)"],
 }
+
+
+# ---------------------------------------------------------------------------------------------- C13
+def plan_c13(tier, seed):
+    if tier == "quick":
+        return checks("main", 8, 6000)
+    return checks("main", 13, 120000) + checks("nohook_avx2", 3, 80000)
+
+
+SPECS["C13"] = {
+    "builds": {
+        "main": Build("main", "harness/c13_harray.cpp"),
+        "nohook_avx2": Build("nohook_avx2", "harness/c13_harray.cpp", hook=False, simd="avx2"),
+    },
+    "default_build": "main",
+    "plan": plan_c13,
+    "rule": ("case = entropy bytes -> program of 1-80 operations over a pool of 2-3 tables of HArray<String,SizeT>, HArray<String,String>, HArray<String,Value> or "
+             "HList<String>: all Insert / Get / [] overloads, lookups by key / index / hash, GetKey, GetItem, GetKeyIndex, Has, Remove (3) / RemoveIndex, Rename (2), "
+             "+= copy and move, Reserve / Resize / Expect / Compress / Clear / Reset, Sort, copy/move construction and assignment; keys from small alphabets, "
+             "the empty key, embedded NULs and brute-forced collision sets (equal low 8 / 4 / 3 hash bits, zero low bits, identical 32-bit hashes) plus random bytes; "
+             "ordered-map model compared relationally after every step; non-trivial = a removal or rename followed by a growth/rehash and a later lookup; distinct by entropy"),
+    "engine": "rapidcheck",
+    "technique": "model-based (stateful) property testing with rapidcheck: operation programs with adversarial colliding keys compared with an insertion-ordered map model after every step",
+    "level_text": ("Generated operation histories on the hash array / hash list are compared after every step with an ordered-map model through every reader; the oracle is "
+                   "relational (independent of the growth policy). Sort is only generated when no live key is a proper prefix of another (that order is C15's subject). "
+                   "Sampling over histories."),
+    "level_note": "generator restrictions (documented in the harness header): no self-merge, Rename onto an existing key returns false, Resize below the live count only on tombstone-free tables",
+    "assumptions": [],
+}
+
+
+# ---------------------------------------------------------------------------------------------- C04
+def plan_c04(tier, seed):
+    if tier == "quick":
+        return checks("main", 8, 15000)
+    return checks("main", 14, 300000) + checks("nohook_avx2", 2, 150000)
+
+
+SPECS["C04"] = {
+    "builds": {
+        "main": Build("main", "harness/c04_expr.cpp"),
+        "nohook_avx2": Build("nohook_avx2", "harness/c04_expr.cpp", hook=False, simd="avx2"),
+    },
+    "default_build": "main",
+    "plan": plan_c04,
+    "rule": ("case = entropy bytes -> expression tree (depth <= 4) over all 16 operators; leaves: unsigned and negative integers, decimals, exponent-form reals, "
+             "variables bound to unsigned/signed/real numbers, numeric strings, true/false/null, text, empty string, object, missing; ==/!= with bare text operands; "
+             "rendered with random spacing and redundant parentheses, parenthesised wherever the documentation leaves grouping open (different operators of one "
+             "documented group adjacent, repeated ^ % comparisons, right-nested same operator); evaluated through ParseExpressions+Evaluate and through {math:} and "
+             "{if case=}; cases whose exact result leaves 64 bits (and 0^0) are discarded; non-trivial = >= 2 operators from >= 2 precedence groups, or a variable "
+             "operand with an operator; distinct by entropy"),
+    "engine": "rapidcheck",
+    "technique": "property-based testing (rapidcheck) with a reference evaluator over the generated expression tree (exact __int128 integers, doubles with a 4-ulp tolerance)",
+    "level_text": ("Generated expressions are evaluated by the library and by an independent reference evaluator that implements ordinary arithmetic with the documented "
+                   "precedence, unsigned->signed->real promotion, real division, truncating remainder, 1/0 comparisons and logic, and 'no value' for division/remainder "
+                   "by zero, fractional powers and 0^-n; value and real/integer category must agree, and {math:}/{if} must print the value / echo the tag / pick the "
+                   "branch accordingly. Sampling over an infinite expression space."),
+    "level_note": "integer results are compared by value (Natural 2 and Integer 2 are the same number); reals within 4 ulp relative",
+    "assumptions": ["unary minus binds to the literal (-3^2 = 9), as Tests/EvaluateTest.hpp pins"],
+}
